@@ -10,6 +10,11 @@ spec["codec_layout"] = [ [file, function, gallina-name], ... ]
     reordering / dropping / widening a field in the C source breaks that proof.
 spec["stmt_anchors"] = [ [file, function, regex, gallina-name], ... ]
     group 1 of the regex (must match exactly once in the function body, white space squeezed) as a string.
+spec["api_functions"] = [ [[file, ...], gallina-name], ... ]
+    the names of the functions with external linkage defined in the files (definition = name at the start of a line
+    followed by "(", return type on the line before, not `static`), in source order, as a list of strings.  A lemma
+    accounts for every one of them (driven by the harness / reached through a driven one / other property), so a new
+    entry point is noticed.
 """
 import re
 
@@ -83,6 +88,23 @@ def emit(repo, spec, H):
         need_string = True
         out.append("(* %s: %s *)" % (f, fn))
         out.append("Definition %s : string := %s." % (gname, _coq_string(_squeeze(ms[0].group(1)))))
+    for files, gname in spec.get("api_functions", []):
+        names = []
+        for f in files:
+            lines = H.raw(repo, f).split("\n")
+            prev = ""
+            for ln in lines:
+                m = re.match(r"^([A-Za-z_][A-Za-z0-9_]*)\s*\(", ln)
+                if m and prev and not prev.startswith("static") and not prev.startswith("#") and \
+                        re.match(r"^[A-Za-z_][A-Za-z0-9_ \*]*$", prev) and m.group(1) not in ("if", "while", "for", "switch", "return"):
+                    names.append(m.group(1))
+                if ln.strip():
+                    prev = ln.strip()
+        if not names:
+            raise ValueError("api_functions: no function definitions found in %s" % files)
+        need_string = True
+        out.append("(* functions with external linkage defined in %s *)" % ", ".join(files))
+        out.append("Definition %s : list string :=\n  [%s]." % (gname, ";\n   ".join(_coq_string(n) for n in names)))
     if need_string:
         out.insert(0, "From Coq Require Import String.")
     return out
